@@ -48,7 +48,7 @@ def _trace_sig(t, bad, l):
 def run(ctx):
     # 1. model checking (small symbolic signatures, full grid)
     ctx.mc("websec", "SignedValue", "MC_SignedValue.cfg", required_actions=["Scenario", "ArbPut"],
-           overrides=ctx.pick({}, {"ArbLen": 6}))
+           overrides=ctx.pick({"ArbLen": 3}, {"ArbLen": 6}))
     # the version-1 format is refuted on the specification itself (F11)
     ctx.mc("websec", "SignedValue", "MC_SignedValue_v1.cfg",
            spec_violation_sig=lambda r, states: {"version": 1})
@@ -72,7 +72,7 @@ def run(ctx):
     ctx._phase("replay", t0)
     ctx.cov["exhaustive"] = True
     # 3. code -> spec: recorded sessions validated by TLC
-    n = ctx.pick(300, 6000)
+    n = ctx.pick(200, 6000)
     jobs = [(i + 1, ctx.seed * 1000003 + i, ctx.pick(14, 24)) for i in range(n)]
     t0 = time.time()
     traces = framework.pool_map(S.random_session, jobs)
